@@ -473,6 +473,31 @@ func c07() {
 				pScan(m)
 			}
 		}
+		// length prefixes of declared and unknown length-delimited fields replaced by huge or slightly-too-large values
+		// (2^31, 2^32, 2^63 and above wrap when converted to int)
+		{
+			rest, off := b, 0
+			for len(rest) > 0 {
+				_, wt, val, m, err := proto.Parse(rest)
+				if err != nil {
+					break
+				}
+				flen := len(rest) - len(m)
+				if wt == proto.Varlen {
+					// the field is tag ++ varint(len(val)) ++ val: rebuild it with another length
+					lenSize := len(proto.AppendVarint(nil, 1, uint64(len(val)))) - 1
+					tagSize := flen - lenSize - len(val)
+					for _, l := range []uint64{uint64(len(val)) + 1, 1 << 31, 1<<32 + 3, 1 << 62, 1 << 63, 1<<63 + 5, ^uint64(0), ^uint64(0) - 9} {
+						lv := proto.AppendVarint(nil, 1, l)[1:]
+						mut := append(append(append(append([]byte(nil), b[:off+tagSize]...), lv...), val...), m...)
+						pDecode(t, mut)
+						pScan(mut)
+					}
+				}
+				off += flen
+				rest = m
+			}
+		}
 		// random bytes
 		pDecode(t, rndBytes(24))
 		pScan(rndBytes(24))
